@@ -320,3 +320,14 @@ check("C28", "internal/telemetry",
       shards=(8, 16), race=True, timeout=(900, 7200),
       floors={"any": {"runs": 300, "reconnects": 300, "drop_records": 300, "events_delivered": 20000, "followups_delivered": 1000, "emits_returned_while_write_stalled": 1000, "close_racing_with_emitters": 50, "dial_failures": 30, "clean_ends_with_counter_equal_to_next_seq": 50}},
       assumptions=[STANDIN_VRF])
+
+check("C32", "internal/zzverif/c32",
+      rule="digest stratum: random work items (0..16 import specs, 0..16 extrinsic specs with lengths from {0,1,255,256,65535,65536,65537,2^20} and random < 2^20, export counts from {0,1,2,63,64,255,256,3072,65535} and random <= 3072, payloads of 0..500 bytes) x refinement outcomes (ok with output, each error kind) x gas: work_package.C must carry service, code hash, H(payload), accumulate gas and the result, "
+           "and the refine load must be (gas, |imports|, |extrinsics|, sum of extrinsic lengths, export count); spec stratum: work_package.A on bundles of 1..10000 bytes and 0..20 export segments (63..66 in every 40th thorough case; a quarter of the segments all-zero): hash, bundle length, export count as given, exports root == M(exports) from the independent Merkle model, same result twice. "
+           "distinct_nontrivial = distinct (imports, extrinsics, size sum, export count) tuples where the counts differ from each other + distinct specs",
+      technique="reference-model monitor (direct model of GP 14.8 / 14.16, exports root from the independent well-balanced-tree model) over generated work items and bundles",
+      level_text="Every field of the digest and of the package specification is compared with a direct model on generated inputs; held = no divergence on what was explored.",
+      note="The erasure root is produced by the repository's own cgo wrapper and lib.rs over the stand-in Reed-Solomon crate (standin/rs-simd); it is not compared with anything (only: no error, no panic, deterministic).",
+      shards=(8, 16), needs_rs=True, env={"JAM_FUZZ": "1"},
+      floors={"any": {"digests": 20000, "digests_with_extrinsic_size_over_16_bits": 5000, "specs": 150, "specs_without_exports": 20}},
+      assumptions=[STANDIN_VRF, "third-party crate reed-solomon-simd replaced by a stand-in MDS code (standin/rs-simd); only the repository's own shard layout and bookkeeping run"])
